@@ -128,7 +128,7 @@ func genHop(ids int) *rapid.Generator[hop] {
 			}
 		case "respond":
 			h.ID = rapid.IntRange(0, ids-1).Draw(rt, "id")
-			h.Size = rapid.SampledFrom([]int{0, 0, 64, 512, 1024}).Draw(rt, "rsize")
+			h.Size = rapid.SampledFrom([]int{0, 0, 20, 20, 64, 512, 1024}).Draw(rt, "rsize")
 		case "unknown", "fail":
 			h.ID = rapid.IntRange(0, ids-1).Draw(rt, "id")
 		case "garbage":
